@@ -77,6 +77,16 @@ check("C10",
       "unordered) equals the bag of choices and that the length is the sum of products.",
       QRY_NOTE, "DESIGN.md section 5, C10")
 
+check("C07",
+      "TLA+ specification of the eleven global queries (spec/DecGlobals.tla: left fold = declarative last-wins reading, checked "
+      "by TLC); files parsed by the real code and all queries validated by TLC",
+      "TLC checks on every file of <= 3 (thorough: 4) statements over a 36-statement universe that the statement-by-statement "
+      "fold and the declarative reading of the property agree (keys = all declared names, value of the last declaration, lists "
+      "keep every statement, repeated lineshape setting = error, PHOTOS flag = last one / off). Every file of that universe "
+      "(quick: a window) and random files with all statement kinds are parsed by the real code; TLC judges the projection of "
+      "every query, including value types (JetSet int vs float) and the reference width in GeV.",
+      "Trusts TLC, the renderer/projection of harness/c07.py, and the particle package for reference widths.",
+      "DESIGN.md section 5, C07")
 check("C16",
       "TLA+ specification of print_decay_modes (spec/DecPrint.tla: Refused, Order, ValueKind) with TLC-checked sorting lemmas; "
       "TLC-enumerated (table, options) cases printed by the real code and the parsed output validated by TLC",
